@@ -11,6 +11,11 @@
 3. constructor lookup: Reader(bin | cbin | meta) for every directory of the model's initial set (ResolveP).
 4. transparency: spec/sys/CbinSlice.tla enumerates every slice position relative to chunk boundaries; replayed as
    Reader(cbin)[sel] == Reader(bin)[sel]; compress -> decompress byte identity for many shapes.
+5. the state a call finds and leaves (VAR): the Reader built from the data path or the metadata path, given as Path or
+   str, open / never opened / closed; keep_original passed or left at its default; a scratch directory that does not exist
+   yet; files of other recordings (other band, other probe) in the same directory; decompress_to_scratch() with its default
+   scratch_dir=None (model: scratch directory = directory of the recording, action SNoCopy); and same-object histories:
+   the call is the second one of a Reader whose first call failed at some file operation / completed / was refused.
 """
 import contextlib
 import copy
@@ -27,6 +32,26 @@ from vkit import metagen, tlc, tracecheck
 NAMES = ["bin", "cbin", "ch", "meta", "cbin_tmp", "sbin", "stmp", "smeta"]
 STEM = "rec_g0_t0.imec0.ap"
 CHUNK = 5
+
+
+# how a call is made and what it finds besides the files of the model (all values lie inside the property's quantifier:
+# "path handed to the reader", keep_original, fault sequences; none changes the sequence of file operations)
+VAR0 = {"entry": "data",        # Reader(<data file>) | "meta": Reader(<metadata file>) when that resolves to the wanted form
+        "pathtype": "path",     # pathlib.Path | "str"
+        "obj": "open",          # Reader state at the call: "open" | "unopened" (open=False) | "closed"
+        "keeparg": "explicit",  # keep_original=True passed | "default": left out
+        "scratchdir": "exists",  # scratch directory there | "missing": neither it nor its parent exists (all scratch names absent)
+        "siblings": False,      # files of another recording (lf band, second probe) in the same directory
+        "here": False,          # decompress_to_scratch(scratch_dir=None): the copy goes next to the compressed file
+        "prior": None}          # earlier call on the same Reader object: {"op", "keep", "fail_at", "between"}
+
+
+def draw_var(vr, **fixed):
+    v = dict(VAR0, entry=vr.choice(["data", "meta"]), pathtype=vr.choice(["path", "str"]),
+             obj=vr.choice(["open", "open", "unopened", "closed"]), keeparg=vr.choice(["explicit", "default"]),
+             scratchdir=vr.choice(["exists", "missing"]), siblings=vr.random() < 0.5)
+    v.update(fixed)
+    return v
 
 
 class Injected(Exception):
@@ -57,18 +82,36 @@ class World:
             self.ref[tag] = {"bin": b.read_bytes(), "cbin": b.with_suffix(".cbin").read_bytes(),
                              "ch": json.loads(b.with_suffix(".ch").read_text())}
 
-    def paths(self, d):
+    def paths(self, d, here=False):
         d = Path(d)
+        if here:
+            # decompress_to_scratch(scratch_dir=None): the model's scratch directory is the directory of the recording
+            # (scratch names = the .bin / .bin_temp / .meta next to the .cbin); the model's "bin" is a name that never exists
+            return {"bin": d / "none" / f"{STEM}.bin", "cbin": d / f"{STEM}.cbin", "ch": d / f"{STEM}.ch",
+                    "meta": d / f"{STEM}.meta", "cbin_tmp": d / f"{STEM}.cbin_tmp", "sbin": d / f"{STEM}.bin",
+                    "stmp": d / f"{STEM}.bin_temp", "smeta": d / f"{STEM}.meta"}
+        sd = d / "scr" / "scratch"
         return {"bin": d / f"{STEM}.bin", "cbin": d / f"{STEM}.cbin", "ch": d / f"{STEM}.ch", "meta": d / f"{STEM}.meta",
-                "cbin_tmp": d / f"{STEM}.cbin_tmp", "sbin": d / "scratch" / f"{STEM}.bin",
-                "stmp": d / "scratch" / f"{STEM}.bin_temp", "smeta": d / "scratch" / f"{STEM}.meta"}
+                "cbin_tmp": d / f"{STEM}.cbin_tmp", "sbin": sd / f"{STEM}.bin",
+                "stmp": sd / f"{STEM}.bin_temp", "smeta": sd / f"{STEM}.meta"}
 
-    def setup(self, d, st):
+    def setup(self, d, st, here=False, siblings=False, scratchdir="exists"):
         d = Path(d)
         if d.exists():
             shutil.rmtree(d)
-        (d / "scratch").mkdir(parents=True)
-        p = self.paths(d)
+        d.mkdir(parents=True)
+        p = self.paths(d, here)
+        if here:
+            assert st["bin"] == "A"
+        elif scratchdir == "exists" or any(st[n] != "A" for n in ("sbin", "stmp", "smeta")):
+            p["sbin"].parent.mkdir(parents=True)
+        if siblings:
+            # another (stale) recording of the same session: the lf band of this probe, the ap band of a second probe
+            for stem2 in (STEM.replace(".ap", ".lf"), STEM.replace("imec0", "imec1")):
+                (d / f"{stem2}.bin").write_bytes(self.ref["S"]["bin"])
+                (d / f"{stem2}.cbin").write_bytes(self.ref["S"]["cbin"])
+                (d / f"{stem2}.ch").write_text(json.dumps(self.ref["S"]["ch"], indent=2, sort_keys=True))
+                (d / f"{stem2}.meta").write_text(self.meta_text)
         garbage = self.ref["C"]["cbin"][: max(1, len(self.ref["C"]["cbin"]) // 3)]
         for n in NAMES:
             s = st[n]
@@ -84,8 +127,8 @@ class World:
                 p[n].write_text(self.meta_text)
         return p
 
-    def project(self, d):
-        p = self.paths(d)
+    def project(self, d, here=False):
+        p = self.paths(d, here)
         out = {}
         for n in NAMES:
             f = p[n]
@@ -110,7 +153,7 @@ class World:
 
 
 @contextlib.contextmanager
-def instrumented(world, d, opname, fail_at):
+def instrumented(world, d, opname, fail_at, here=False):
     """wraps the file operations of one call; records (label, directory before the operation); raises Injected at the
     fail_at-th operation (0-based) if fail_at is not None"""
     import builtins
@@ -120,7 +163,7 @@ def instrumented(world, d, opname, fail_at):
     base = str(Path(d))
 
     def point(label):
-        steps.append({"pt": label, "fs": world.project(d), "at": label})
+        steps.append({"pt": label, "fs": world.project(d, here), "at": label})
         i = state["n"]
         state["n"] += 1
         if fail_at is not None and i == fail_at:
@@ -209,24 +252,71 @@ def instrumented(world, d, opname, fail_at):
         mtscomp.DEFAULT_CONFIG = orig["cfg"]
 
 
-def one_call(world, d, st, opname, keep, fail_at):
-    """returns a trace record (or None if the call has fewer than fail_at+1 operations)"""
+def make_reader(p, opname, var):
+    """the Reader the call is made on, built the way `var` says"""
     import spikeglx
-    p = world.setup(d, st)
+    want = "bin" if opname == "compress" else "cbin"
+    path = p[want]
+    if var["entry"] == "meta":
+        # the metadata path is an entry to the wanted form when the constructor's lookup leads there: the .bin if there
+        # is one, else the .cbin (in scratch-here mode the .bin next to the .cbin is the model's scratch copy)
+        binfile = p["sbin"] if var["here"] else p["bin"]
+        if ("bin" if binfile.exists() else "cbin") == want:
+            path = p["meta"]
+    if var["pathtype"] == "str":
+        path = str(path)
+    sr = spikeglx.Reader(path, open=False) if var["obj"] == "unopened" else spikeglx.Reader(path)
+    if var["obj"] == "closed":
+        sr.close()
+    return sr
+
+
+def invoke(sr, world, p, opname, keep, var):
+    kk = {} if (keep and var["keeparg"] == "default") else {"keep_original": keep}
+    if opname == "compress":
+        return sr.compress_file(**kk, **world.kw)
+    if opname == "decompress":
+        return sr.decompress_file(**kk, n_threads=1)
+    if var["here"]:
+        return sr.decompress_to_scratch()
+    return sr.decompress_to_scratch(scratch_dir=p["sbin"].parent)
+
+
+def one_call(world, d, st, opname, keep, fail_at, var=None):
+    """returns a trace record (or None if the call has fewer than fail_at+1 operations)"""
+    var = dict(VAR0, **(var or {}))
+    here = bool(var["here"])
+    if here and opname != "scratch":
+        raise tlc.TLCError("scratch-here mapping is for decompress_to_scratch only")
+    p = world.setup(d, st, here=here, siblings=var["siblings"], scratchdir=var["scratchdir"])
     rec = {"op": opname, "keep": bool(keep), "exc": "", "steps": [], "pre": st, "fail_at": fail_at, "ns": world.ns,
-           "resolved": {"bin": "skip", "cbin": "skip", "meta": "skip"}, "reopen": "skip"}
-    entry_fs = world.project(d)
+           "resolved": {"bin": "skip", "cbin": "skip", "meta": "skip"}, "reopen": "skip", "var": var}
     sr = None
-    with instrumented(world, d, opname, fail_at) as steps:
+    prior = var["prior"]
+    if prior:
+        # an earlier call on the same Reader object (not recorded: the same call is recorded on its own elsewhere);
+        # the recorded call starts from whatever that one left behind, on the object as that one left it
         try:
-            sr = spikeglx.Reader(p["bin"] if opname == "compress" else p["cbin"])
-            if opname == "compress":
-                sr.compress_file(keep_original=keep, **world.kw)
-            elif opname == "decompress":
-                sr.decompress_file(keep_original=keep, n_threads=1)
-            else:
-                sr.decompress_to_scratch(scratch_dir=Path(d) / "scratch")
-            steps.append({"pt": "return", "fs": world.project(d)})
+            sr = make_reader(p, prior["op"], var)
+            with instrumented(world, d, prior["op"], prior["fail_at"], here):
+                try:
+                    invoke(sr, world, p, prior["op"], prior["keep"], var)
+                except Injected:
+                    pass
+                except ValueError as e:
+                    if "already exists" not in str(e):
+                        raise
+        except Exception as e:  # noqa
+            rec["exc"] = f"prior call: {type(e).__name__}: {e}"
+        if prior.get("between") == "rm_bin":
+            p["bin"].unlink(missing_ok=True)        # somebody removes the file that made the first call decline
+    entry_fs = world.project(d, here)
+    with instrumented(world, d, opname, fail_at, here) as steps:
+        try:
+            if sr is None:
+                sr = make_reader(p, opname, var)
+            invoke(sr, world, p, opname, keep, var)
+            steps.append({"pt": "return", "fs": world.project(d, here)})
             if opname in ("compress", "decompress"):
                 # "the current spikeglx.Reader object is modified in place": the same object, re-opened, must still
                 # expose the recording (whichever form it now points to)
@@ -242,13 +332,13 @@ def one_call(world, d, st, opname, keep, fail_at):
             pass
         except ValueError as e:
             if opname == "decompress" and "already exists" in str(e) and not steps:
-                steps.append({"pt": "refuse", "fs": world.project(d)})
+                steps.append({"pt": "refuse", "fs": world.project(d, here)})
             else:
                 rec["exc"] = f"{type(e).__name__}: {e}"
-                steps.append({"pt": "fail", "fs": world.project(d)})
+                steps.append({"pt": "fail", "fs": world.project(d, here)})
         except Exception as e:  # an exception nobody injected
             rec["exc"] = f"{type(e).__name__}: {e}"
-            steps.append({"pt": "fail", "fs": world.project(d)})
+            steps.append({"pt": "fail", "fs": world.project(d, here)})
         finally:
             try:
                 if sr is not None:
@@ -257,28 +347,32 @@ def one_call(world, d, st, opname, keep, fail_at):
                 pass
     if fail_at is not None and not any(s["pt"] == "fail" for s in steps):
         return None          # the call has no such operation
-    steps.append({"pt": "end", "fs": world.project(d)})
+    steps.append({"pt": "end", "fs": world.project(d, here)})
     if steps[0]["fs"] != entry_fs:
         # the directory changed through an operation that is not instrumented: a step of its own (not a step of the
         # specification: drift), so that the property layer still sees every observed directory
         steps.insert(0, {"pt": "unseen", "fs": entry_fs})
+    if here:
+        # the branch scratch_dir=None has no metadata copy: the model's step SNoCopy (directory unchanged)
+        steps.insert(0, {"pt": "nocopy", "fs": entry_fs})
     for s_ in steps:
         s_.setdefault("at", "")
     rec["steps"] = steps
     return rec
 
 
-def resolve_record(world, d, st):
+def resolve_record(world, d, st, var=None):
     """Reader(path) for the three entry paths of one directory"""
     import spikeglx
-    p = world.setup(d, st)
+    var = dict(VAR0, **(var or {}))
+    p = world.setup(d, st, siblings=var["siblings"], scratchdir=var["scratchdir"])
     res = {}
     for e in ("bin", "cbin", "meta"):
         if not p[e].exists():
             res[e] = "skip"
             continue
         try:
-            sr = spikeglx.Reader(p[e])
+            sr = spikeglx.Reader(str(p[e]) if var["pathtype"] == "str" else p[e])
             fb = sr.file_bin
             if fb is None:
                 res[e] = "none"
@@ -292,7 +386,7 @@ def resolve_record(world, d, st):
             res[e] = "none" if st.get(e, "C") in ("C",) else "skip"
             res[e + "_exc"] = f"{type(ex).__name__}: {ex}"
     return {"op": "resolve", "keep": True, "exc": "", "pre": st, "ns": world.ns, "fail_at": None,
-            "steps": [{"pt": "end", "fs": world.project(d)}], "reopen": "skip",
+            "steps": [{"pt": "end", "fs": world.project(d)}], "reopen": "skip", "var": var,
             "resolved": {k: res[k] for k in ("bin", "cbin", "meta")}, "detail": {k: v for k, v in res.items() if k.endswith("_exc")}}
 
 
@@ -326,7 +420,16 @@ def judge(ctx, traces, label):
 
 def describe(t):
     pre = "".join(f"{k}={v} " for k, v in t["pre"].items() if v != "A")
-    return f"{t['op']}(keep={t['keep']}) fail_at={t['fail_at']} ns={t['ns']} pre: {pre}"
+    var = t.get("var") or VAR0
+    how = " ".join(f"{k}={v}" for k, v in var.items() if k != "prior" and v != VAR0[k])
+    pr = var.get("prior")
+    if pr:
+        how += (f" after {pr['op']}(keep={pr['keep']}) fail_at={pr['fail_at']} on the same Reader"
+                + (" and removal of the .bin" if pr.get("between") else ""))
+    return f"{t['op']}(keep={t['keep']}) fail_at={t['fail_at']} ns={t['ns']} pre: {pre}" + (f"[{how.strip()}]" if how.strip() else "")
+
+
+SCEN_KEYS = ("op", "keep", "pre", "fail_at", "ns", "var")
 
 
 def report(ctx, traces, verdicts):
@@ -334,7 +437,7 @@ def report(ctx, traces, verdicts):
         t = traces[v["index"]]
         if v["prop"]:
             ctx.violation("compress:" + v["prop"], f"{describe(t)}: property-layer clause {v['prop']} false at step {v['pos']}"
-                          + (f" [{t['exc']}]" if t["exc"] else ""), {"trace": {k: t[k] for k in ("op", "keep", "pre", "fail_at", "ns")}})
+                          + (f" [{t['exc']}]" if t["exc"] else ""), {"trace": {k: t.get(k) for k in SCEN_KEYS}})
         elif v["impl"]:
             ctx.spec_drift(f"{describe(t)}: file operation '{v['impl']}' is not the implementation-layer step of "
                            f"spec/sys/Compress.tla at that point")
@@ -392,7 +495,7 @@ def run(ctx):
     for t in traces:
         if t["exc"]:
             ctx.violation("compress:UnexpectedException", f"{describe(t)}: raised {t['exc']} without an injected fault",
-                          {"trace": {k: t[k] for k in ("op", "keep", "pre", "fail_at", "ns")}})
+                          {"trace": {k: t.get(k) for k in SCEN_KEYS}})
     verdicts = judge(ctx, traces, "compress")
     report(ctx, traces, verdicts)
     ctx.cov["fault_points"] = sum(1 for t in traces if t["fail_at"] is not None)
